@@ -217,6 +217,8 @@ m("C13-f", "C13", "api/src/types.rs", "\t\tlet nonce: [u8; 12] = thread_rng().ge
 m("C12-i", "C12", "impls/src/lifecycle/seed.rs", "\t\tlet salt: [u8; 8] = thread_rng().gen();\n\t\tlet nonce: [u8; 12] = thread_rng().gen();", "\t\tlet salt: [u8; 8] = [1u8; 8];\n\t\tlet nonce: [u8; 12] = thread_rng().gen();", "C12.R3")
 m("C12-j", "C12", "impls/src/lifecycle/seed.rs", "\t\tlet salt: [u8; 8] = thread_rng().gen();\n\t\tlet nonce: [u8; 12] = thread_rng().gen();", "\t\tlet salt: [u8; 8] = thread_rng().gen();\n\t\tlet nonce: [u8; 12] = [0u8; 12];", "C12.R3")
 
+m("C03-f", "C03", "libwallet/src/types.rs", "\t\tself.status = OutputStatus::Locked;", "\t\tif let OutputStatus::Unspent = self.status {\n\t\t\tself.status = OutputStatus::Locked\n\t\t}", "C03.R7")
+
 
 def for_property(prop):
     return [x for x in M if x["property"] == prop]
